@@ -460,6 +460,34 @@ func (act *activation) fixpoint(start *alt) *result {
 			}
 			for _, s := range b.Succs {
 				ek := edge{b.Index, s.Index}
+				if record && act.depth == 0 && idx[s] <= idx[b] && len(b.Instrs) > 0 {
+					// what holds whenever the entry function's loop goes round again
+					pi := -1
+					for i, p := range s.Preds {
+						if p == b {
+							pi = i
+						}
+					}
+					for _, o := range edgeOut[ek] {
+						// boolean flags carried round the loop: flagstep:<name>(value in this iteration, value in the next)
+						var steps []term.ID
+						for _, ins := range s.Instrs {
+							phi, ok := ins.(*ssa.Phi)
+							if !ok {
+								break
+							}
+							if pi < 0 || !isBool(phi.Type()) || phi.Comment == "" {
+								continue
+							}
+							cur, ok := o.frame[phi]
+							if !ok {
+								continue
+							}
+							steps = append(steps, act.e.T.Mk("flagstep:"+phi.Comment, cur, act.val(o, phi.Edges[pi])))
+						}
+						act.events = append(act.events, &Event{Key: "backedge", Kind: "backedge", Instr: b.Instrs[len(b.Instrs)-1], Fn: fn, Atoms: o.atoms, Args: steps})
+					}
+				}
 				edgeOut[ek] = act.e.join(edgeOut[ek], act.e.K)
 			}
 		}
